@@ -1,4 +1,5 @@
 import KV.GraphWF
+import KV.StructRounds
 /-! Prototype (scratch): the supplier map built by `newGraph` points at valid result groups. -/
 namespace KV
 
@@ -89,14 +90,14 @@ theorem expandFields_ok (sty decl : Nat) (fs : List (String × Nat)) {provs prov
       obtain ⟨h2, extra, he⟩ := ih hnew hr
       exact ⟨h2, mkFieldProv sty decl fname fty :: extra, by rw [he]; simp⟩
 
-theorem pass2_ok (sps : List PSpec) {provs provs' : List PSpec} {m m' : SupMap}
-    (h : SupOK' provs m) (hr : pass2 sps provs m = .ok (provs', m')) : SupOK' provs' m' := by
+theorem pass2Ordered_ok (sps : List PSpec) {provs provs' : List PSpec} {m m' : SupMap}
+    (h : SupOK' provs m) (hr : pass2Ordered sps provs m = .ok (provs', m')) : SupOK' provs' m' := by
   induction sps generalizing provs m with
   | nil =>
-    simp [pass2, pure, Except.pure] at hr
+    simp [pass2Ordered, pure, Except.pure] at hr
     obtain ⟨rfl, rfl⟩ := hr; exact h
   | cons sp sps ih =>
-    simp only [pass2] at hr
+    simp only [pass2Ordered] at hr
     split at hr
     · cases hr
     · simp only [bind, Except.bind] at hr
@@ -105,5 +106,10 @@ theorem pass2_ok (sps : List PSpec) {provs provs' : List PSpec} {m m' : SupMap}
       · rename_i r h1
         obtain ⟨provs1, m1⟩ := r
         exact ih (expandFields_ok _ _ _ h h1).1 hr
+
+theorem pass2_ok (sps : List PSpec) {provs provs' : List PSpec} {m m' : SupMap}
+    (h : SupOK' provs m) (hr : pass2 sps provs m = .ok (provs', m')) : SupOK' provs' m' := by
+  obtain ⟨sps', _, ho⟩ := pass2_ok_ordered hr
+  exact pass2Ordered_ok sps' h ho
 
 end KV
